@@ -32,6 +32,12 @@ OPT_HEAVY = {
     "const_out": 0.1, "late_subplan": 0.1,
 }
 
+AMEND_HEAVY = {
+    "subplan": 0.6, "optional": 0.15, "amend": 0.7, "env": 0.15, "vol": 0.1, "resources": 0.1,
+    "hold": 0.2, "tree": 0.4, "glob": 0.2, "subdir_out": 0.3, "fail": 0.03, "dyn_out": 0.15,
+    "const_out": 0.1, "late_subplan": 0.3, "clobber": 0.05,
+}
+
 WORKLOADS = {
     # property: (quick sizes, thorough sizes) as dicts
     "C09": {"quick": {"gen": 70, "conflict": 60, "shapes": True}, "thorough": {"gen": 900, "conflict": 900, "shapes": True}},
@@ -43,7 +49,7 @@ WORKLOADS = {
     "C06": {"quick": {"gen": 130, "conflict": 0, "shapes": True, "features": None, "nphases": 5, "user_edits": True}, "thorough": {"gen": 1500, "conflict": 0, "shapes": True, "nphases": 6, "user_edits": True}},
     "C07": {"quick": {"gen": 130, "conflict": 0, "shapes": True, "features": None, "nphases": 5, "user_edits": True}, "thorough": {"gen": 1500, "conflict": 0, "shapes": True, "nphases": 6, "user_edits": True}},
     "C11": {"quick": {"gen": 130, "conflict": 0, "shapes": True, "features": OPT_HEAVY, "nphases": 4, "targets": True}, "thorough": {"gen": 1500, "conflict": 0, "shapes": True, "features": OPT_HEAVY, "nphases": 4, "targets": True}},
-    "C03": {"quick": {"gen": 110, "conflict": 0, "shapes": True, "features": HOLD_HEAVY}, "thorough": {"gen": 1500, "conflict": 0, "shapes": True, "features": HOLD_HEAVY}},
+    "C03": {"quick": {"gen": 160, "conflict": 0, "shapes": True, "features": AMEND_HEAVY, "during": True}, "thorough": {"gen": 2500, "conflict": 0, "shapes": True, "features": AMEND_HEAVY, "during": True}},
 }
 
 VACUITY = {
@@ -53,7 +59,7 @@ VACUITY = {
     "C12": {"cmd_start": 200, "hold": 20},
     "C15": {"rpc_reject": 30, "rpc_ok": 100},
     "C19": {"phase_end": 100},
-    "C03": {"cmd_start": 200},
+    "C03": {"cmd_start": 200, "amend": 100, "read": 300, "final_reads_checked": 200, "tainted": 3},
     "C06": {"finalize_end": 100, "removed_files": 20, "write": 200},
     "C07": {"finalize_end": 100, "removed_files": 20, "write": 200},
     "C11": {"finalize_end": 100, "cmd_start": 200, "phase_end": 100},
@@ -83,7 +89,8 @@ def main(argv=None):
         if wl.get("gen"):
             cases += engine_b.gen_cases(args.seed, wl["gen"], features=wl.get("features"),
                                         watch_p=0.0, nphases=wl.get("nphases", 4),
-                                        user_edits=wl.get("user_edits", False), targets=wl.get("targets", False))
+                                        user_edits=wl.get("user_edits", False), targets=wl.get("targets", False),
+                                        during=wl.get("during", False))
         if wl.get("conflict"):
             cases += engine_b.conflict_cases(args.seed, wl["conflict"])
         for c in cases[:3]:
@@ -96,6 +103,40 @@ def main(argv=None):
             "cases = hand-written shapes + seeded generated projects/histories + conflict-heavy plans; "
             "every commit/dispatch/command start/request end/phase end of every execution is one monitor evaluation"
         )
+        if pid == "C08":
+            from checks.history import validate_rels
+            from checks.pairs import exec_pair, exec_rerun, pair_cases, rerun_cases
+            from harness.runner import pmap
+            from harness import tlc as tlcmod
+
+            pcases = pair_cases(args.tier, args.seed)
+            rel_lines, replays, ptraces = [], {}, []
+            for kind, r in pmap(exec_pair, pcases):
+                if kind == "err":
+                    report.machinery("pair harness crashed: " + r[:1500])
+                    continue
+                rel_lines.extend(r["rels"])
+                replays[r["tid"]] = r["replay"]
+                ptraces.extend(r["traces"])
+            for kind, r in pmap(exec_rerun, rerun_cases()):
+                if kind == "err":
+                    report.machinery("rerun harness crashed: " + r[:1500])
+                    continue
+                replays[r["tid"]] = r["replay"]
+                ptraces.extend(r["traces"])
+            v = validate_rels(report, rel_lines) if rel_lines else None
+            if v:
+                report.add_verdicts(v["bad"], replays)
+                report.coverage["ordered_pairs_checked"] = v["cnt"].get("pair_orders", 0)
+                if v["cnt"].get("pair_orders", 0) < 100:
+                    report.machinery("vacuous run: too few declaration pairs")
+            try:
+                tv = tlcmod.validate_traces(tlcmod.pack_batches(ptraces, 6000), parallel=12)
+                report.add_verdicts(tv["bad"], {t.split("/")[0]: replays.get(t.split("/")[0]) for t, _ in ptraces})
+                report.coverage["traces_validated_against_impl"] += len(ptraces)
+                report.coverage["states"] += tv["states"]
+            except tlcmod.TLCFailure as exc:
+                report.machinery(str(exc)[:2000])
         if pid == "C06":
             # second half of the property: the `stepup clean` tool
             from checks.cleantool import exec_clean_case
